@@ -22,7 +22,7 @@ emit("orig", run(f))
 emit("copy", run(g))
 `
 
-var vhDumpFns = [7]string{
+var vhDumpFns = [8]string{
 	// constants of every type, nested function, varargs, upvalue _ENV
 	"local a, b = ... return a + 1, b * 2.5, 'str', 'a-longer-string-constant', true, nil",
 	"local a, b = ... local function sq(x) return x * x end return sq(a) - sq(b)",
@@ -32,11 +32,13 @@ var vhDumpFns = [7]string{
 	"local a = ... error('line-info')",
 	// float constants with integral values keep their subtype
 	"local a, b = ... return math.type(2.0), a * 1e15, -0.0, 1e308 * 10, b // 0.0, 3 | 0, 0x7fffffffffffffff, 1e100",
+	// prototypes nested three deep: position information (source name, line) at every depth
+	"local a = ... local function l1(d)\n if d == 1 then error('at-1') end\n local function l2()\n if d == 2 then error('at-2') end\n local function l3() error('at-3') end\n return l3() end\n return l2() end\n return l1(a)",
 }
 
 func VerifH_C13_dump_load_equivalent() {
 	run := vhNewRun()
-	k := verifChoose("fn", 7)
+	k := verifChoose("fn", 8)
 	a, b := nondetInt64("a"), nondetInt64("b")
 	_, err := run.lua(vhDumpHarness, vhStr(vhDumpFns[k]), vhInt(a), vhInt(b))
 	verifAssert(err == nil, "chunk-runs")
